@@ -22,6 +22,15 @@ attributes" / the `size`/`unsigned` section), never from pony's converters:
                 False.  Also it can raise the ValueError exception if the check failed."
   default       the value an omitted attribute receives; it is a value like any other, so it has to pass the same rules.
 
+  numeric inputs of another numeric type (the converters take them; the pinned suite itself declares
+                `Required(Decimal, default=0)`): the value is the NUMBER the input denotes, expressed in the declared type:
+                an int given to a float / Decimal attribute is float(v) / Decimal(v) (exact for |v| <= 2**53); a float given
+                to a Decimal attribute is the decimal number the float prints as, Decimal(repr(v)) -- repr() is Python's
+                shortest string that round-trips, i.e. the literal the program wrote (0.3 is 0.3, not its binary expansion
+                0.299999999999999988897...).  This is the only reading under which the value the column ends up holding
+                (0.30 at any declarable scale) is the value that was validated.  Other coercions (str -> number,
+                bool -> int, float -> int, Decimal -> float) stay 'unspecified' and are never generated.
+
 Values travel as JSON: ['int', 5] ['float', 1.5] ['Decimal', '1.50'] ['str', ' a '] ['bool', true] ['None'].
 """
 import math
@@ -140,7 +149,8 @@ def decl_problem(spec):
         if kind == 'PrimaryKey': return 'default on pk'
         if d is None: return 'default None is outside the asserted domain'
         if d == '' and kind != 'Optional': return "default ''"
-        if d is not None and type(d) is not PYTYPE[t]: return 'default type'
+        if d is not None and coerce(t, d) is NotImplemented: return 'default type'
+        if verdict(dict(spec, py_check=None), d)[0] == 'unspecified': return 'default value outside the asserted domain'
     return None
 
 
@@ -156,6 +166,22 @@ def required(spec):
 
 
 # ---------------------------------------------------------------- the predicate
+def coerce(t, val):
+    """the number a numeric input of another numeric type denotes, in the declared type; NotImplemented if the
+    conversion is outside the asserted domain"""
+    if type(val) is PYTYPE[t]: return val
+    if t == 'float' and type(val) is int and abs(val) <= 2 ** 53: return float(val)
+    if t == 'Decimal' and type(val) is int: return Decimal(val)
+    if t == 'Decimal' and type(val) is float and val == val and abs(val) != float('inf'): return Decimal(repr(val))
+    return NotImplemented
+
+
+def coercion(t, val):
+    """class name of a cross-type candidate, None for exact-type values"""
+    if val is None or type(val) is PYTYPE[t]: return None
+    return '%s->%s' % (type(val).__name__, t)
+
+
 def verdict(spec, val):
     """-> ('accept', normalised) | ('reject', reason) | ('unspecified', reason)"""
     t, o = spec['type'], spec['opts']
@@ -164,7 +190,11 @@ def verdict(spec, val):
         if not nullable(spec): return 'reject', 'None for a non-nullable optional string'
         return 'accept', None
     if type(val) is not PYTYPE[t]:
-        return 'unspecified', 'coercion from %s' % type(val).__name__
+        given = val
+        val = coerce(t, val)
+        if val is NotImplemented: return 'unspecified', 'coercion from %s' % type(given).__name__
+        if t == 'Decimal' and not decimal_fits(o, val) and not _outside_bounds(o, val):
+            return 'unspecified', 'more digits than the declared precision/scale'
     norm = val
     if t == 'str':
         if o.get('autostrip', True): norm = val.strip()
@@ -191,6 +221,11 @@ def verdict(spec, val):
         except ValueError: return 'reject', 'py_check raised ValueError'
         if not ok: return 'reject', 'py_check returned False'
     return 'accept', norm
+
+
+def _outside_bounds(o, val):
+    mn, mx = opt_value(o, 'min'), opt_value(o, 'max')
+    return (mn is not None and val < mn) or (mx is not None and val > mx)
 
 
 def omitted_verdict(spec):
@@ -229,7 +264,8 @@ def decimal_fits(opts, v):
 
 
 def candidates(spec, extra=()):
-    """exact-type candidate values on, next to and across every declared or implied bound, plus None and ''.
+    """candidate values on, next to and across every declared or implied bound, plus None and '': exact-type values
+    and, for float / Decimal attributes, the same numbers given as int / float (see `coerce`).
     Values whose verdict is 'unspecified' are dropped.  Order is deterministic."""
     t, o = spec['type'], spec['opts']
     out = [None]
@@ -248,6 +284,12 @@ def candidates(spec, extra=()):
             b = float(b)
             pts += [b, math.nextafter(b, -math.inf), math.nextafter(b, math.inf), b - 0.5, b + 0.5, b - 1.0, b + 1.0]
         out += pts
+        ints = [0, 1, -1, 100, 2 ** 53, -(2 ** 53)]
+        for v in pts:                                   # the same numbers given as int
+            if abs(v) < 2 ** 53:
+                n = math.floor(v)
+                ints += [n, n + 1] if n != v else [n - 1, n, n + 1]
+        out += ints
     elif t == 'Decimal':
         q = _quantum(o)
         p, s = o.get('precision', 12), o.get('scale', 2)
@@ -259,8 +301,12 @@ def candidates(spec, extra=()):
             g = b.quantize(q, rounding='ROUND_FLOOR')
             pts += [g - q, g, g + q, g + 2 * q]
             pts.append(b + side * q / 10)      # across the bound by less than one quantum (must be rejected)
-        for v in pts:
-            if decimal_fits(o, v) or verdict(spec, v)[0] == 'reject': out.append(v)
+        pts = [v for v in pts if decimal_fits(o, v) or verdict(spec, v)[0] == 'reject']
+        out += pts
+        for v in pts:                                   # the same numbers given as float and as int
+            f = float(v)
+            if Decimal(repr(f)) == v: out.append(f)
+            if v == v.to_integral_value(): out.append(int(v))
     elif t == 'str':
         ml = o.get('max_len')
         lens = [0, 1, 2, 3, 300] if ml is None else [0, 1, ml - 1, ml, ml + 1, ml + 2]
@@ -287,6 +333,8 @@ def near_bound(spec, val):
     (int: +-1; float: <= 1 ulp or 1.0; Decimal: one quantum; str: length within 1 of max_len, or empty after strip)"""
     t, o = spec['type'], spec['opts']
     if val is None: return True
+    val = coerce(t, val)
+    if val is NotImplemented: return False
     mn, mx = opt_value(o, 'min'), opt_value(o, 'max')
     if t == 'int':
         bounds = [b for b in (mn, mx) if b is not None] + list(int_range(o) or INT32)
